@@ -287,6 +287,11 @@ class Thm:
 
         """
         try:
+            # Term.subst extends inst.tyinst by matching types of the instantiated
+            # schematic variables. A first pass over all hypotheses and the conclusion
+            # settles the type instantiation, so that it is applied uniformly.
+            for t in th.hyps + (th.prop,):
+                t.subst(inst)
             hyps_new = tuple(hyp.subst(inst) for hyp in th.hyps)
             prop_new = th.prop.subst(inst)
         except term.TermException:
